@@ -487,6 +487,83 @@ func main() {
 			return false
 		})
 		fmt.Fprintf(&b, "def startLeadingErrorPathDeletes : List String := %s\n", lib.LeanStrList(errDeletes))
+		// ---- the gateway's callers of ClientSets: where the client of each request comes from
+		callerFact := func(file, recv, fn, send string) string {
+			cf := g.ParseFile(file)
+			fd := mustFunc(cf, file, recv, fn)
+			base := ""
+			ast.Inspect(fd.Body, func(x ast.Node) bool {
+				if c, ok := x.(*ast.CallExpr); ok {
+					if sel, ok := c.Fun.(*ast.SelectorExpr); ok && sel.Sel.Name == send {
+						e := sel.X
+						for {
+							switch t := e.(type) {
+							case *ast.CallExpr:
+								e = t.Fun
+								continue
+							case *ast.SelectorExpr:
+								e = t.X
+								continue
+							}
+							break
+						}
+						if id, ok := e.(*ast.Ident); ok {
+							base = id.Name
+						}
+					}
+				}
+				return true
+			})
+			if base == "" {
+				return "no " + send + " call"
+			}
+			// every definition/assignment of that identifier in the function, and whether it is a top-level statement
+			var defs []string
+			top := map[ast.Stmt]bool{}
+			for _, st := range fd.Body.List {
+				top[st] = true
+			}
+			ast.Inspect(fd.Body, func(x ast.Node) bool {
+				if as, ok := x.(*ast.AssignStmt); ok {
+					for _, l := range as.Lhs {
+						if id, ok := l.(*ast.Ident); ok && id.Name == base {
+							where := "nested"
+							if top[as] {
+								where = "every call"
+							}
+							defs = append(defs, where+": "+show(as))
+						}
+					}
+				}
+				return true
+			})
+			return send + " on " + base + " <- " + strings.Join(defs, " | ")
+		}
+		const raFile = "pkg/flowcontrols/remote/remote_allocation.go"
+		const rcFile = "pkg/flowcontrols/remote/remote_counter.go"
+		b.WriteString("/-! the gateway's callers: the client of every report / acquire is resolved by ClientFor for that very request -/\n")
+		fmt.Fprintf(&b, "def reconcileClient : String := %q\n", callerFact(raFile, "reconcile", "reconcile", "UpdateStatus"))
+		fmt.Fprintf(&b, "def acquireClient : String := %q\n", callerFact(rcFile, "globalCounterManager", "doAcquire", "Acquire"))
+		var keeps []string
+		for _, fs := range [][2]string{{raFile, "reconcile"}, {rcFile, "globalCounterManager"}} {
+			cf := g.ParseFile(fs[0])
+			ast.Inspect(cf, func(x ast.Node) bool {
+				ts, ok := x.(*ast.TypeSpec)
+				if !ok || ts.Name.Name != fs[1] {
+					return true
+				}
+				if st, ok := ts.Type.(*ast.StructType); ok {
+					for _, f := range st.Fields.List {
+						t := show(f.Type)
+						if strings.Contains(t, "clientset.Interface") || strings.Contains(t, "kubernetes.Interface") || strings.Contains(t, "RateLimitConditionInterface") || strings.Contains(t, "ProxyV1alpha1Interface") {
+							keeps = append(keeps, fs[1]+"."+show(f.Names[0])+" "+t)
+						}
+					}
+				}
+				return false
+			})
+		}
+		fmt.Fprintf(&b, "def callersKeepingAClient : List String := %s\n", lib.LeanStrList(keeps))
 		b.WriteString("end KG.Gen.C13\n")
 		g.Emit("C13.lean", b.String())
 	})
